@@ -286,6 +286,13 @@ def run_once(prop, trace, ids_seed, log):
                 rng = random.Random(oseed)
                 fin, made = walk(prop, spec_obj, built, rng, (k.get('picks') or [[], []])[j], log, directed=assign_a)
                 o = check_final(prop, spec_obj, fin, made, log, directed=assign_a)
+                wired_fin = _readback(spec_obj, fin)
+                never = sorted(c for c in assign_a if c not in {m for m, _ in made}
+                               and (spec_obj.sel[c][0], assign_a[c]) not in wired_fin)
+                if never:
+                    raise Viol(f'{prop}/admissible-unreachable',
+                               f'followed admissible assignment {sorted(assign_a.items())}: the result is reported feasible '
+                               f'but choices {never} (active under this assignment) were neither offered nor resolved automatically (made {made})')
                 if prop == 'C02' and o['nodes'] != set(nodes_a):
                     raise Viol(f'{prop}/wrong-architecture', f'followed {sorted(assign_a.items())}: nodes differ')
                 o['made'] = made
@@ -340,6 +347,25 @@ def _has_interlocking_cycles(spec):
         if len(comp) > 1:
             sub = g.subgraph(comp)
             if sub.number_of_edges() - len(comp) + 1 >= 2:
+                return True
+    return False
+
+
+def _option_reachable_from_sibling(spec):
+    """Some choice has two options o1 != o2 with o2 reachable from o1 (over derivation edges and all options)."""
+    import networkx as nx
+    g = nx.DiGraph()
+    g.add_nodes_from(spec['nodes'])
+    g.add_edges_from(map(tuple, spec['derive']))
+    for cid, origin, opts in spec['sel']:
+        for o in opts:
+            g.add_edge(origin, o)
+    for cid, origin, opts in spec['sel']:
+        for o1 in opts:
+            if o1 not in g:
+                continue
+            reach = nx.descendants(g, o1)
+            if any(o2 in reach for o2 in opts if o2 != o1):
                 return True
     return False
 
@@ -505,9 +531,8 @@ def signature(trace, result):
         feats.append('interlocking-cycles')
     if spec['incompat']:
         feats.append('incompat')
-    opts = {o for c in spec['sel'] for o in c[2]}
-    if any(t in opts for (_, t) in map(tuple, spec['derive'])):
-        feats.append('option-derived-elsewhere')
+    if _option_reachable_from_sibling(spec):
+        feats.append('option-reachable-from-sibling')
     if gen_dsg.has_unreachable(spec):
         feats.append('unreachable-island')
     if _has_shared_option(spec):
